@@ -572,6 +572,41 @@ func (e *raceExec) Do(line string) string {
 		}
 	}
 
+	// the per-bus workers of ExportNetwork against the sequential ExportBus of every bus, with
+	// fewer workers than buses, as many, and more (C18: "concurrent results equal the sequential ones")
+	func() {
+		defer func() {
+			if p := recover(); p != nil {
+				e.add("c18-panic:export-network", sprintf("%s: %v", ctx, p))
+			}
+		}()
+		var seq [][]byte
+		for _, b := range g.net.Buses() {
+			var buf bytes.Buffer
+			acmelib.ExportBus(&buf, b)
+			seq = append(seq, buf.Bytes())
+		}
+		prev := runtime.GOMAXPROCS(0)
+		defer runtime.GOMAXPROCS(prev)
+		for _, procs := range []int{1, 2, 3, prev} {
+			runtime.GOMAXPROCS(procs)
+			files, err := exportNetworkFiles(g.net)
+			if err != nil {
+				continue
+			}
+			for i, want := range seq {
+				found := false
+				for _, got := range files {
+					found = found || bytes.Equal(got, want)
+				}
+				if !found && !reported["xn"] {
+					reported["xn"] = true
+					e.add("c18-result-differs:export-network-vs-export-bus", sprintf("%s: GOMAXPROCS=%d, %d buses: no file of ExportNetwork equals ExportBus of bus %q", ctx, procs, len(seq), g.net.Buses()[i].Name()))
+				}
+			}
+		}
+	}()
+
 	// concurrent phase
 	var wg sync.WaitGroup
 	perG := make([][]raceDiff, n)
